@@ -9,5 +9,5 @@ for p in "$@"; do
 done
 git -C /repo checkout -- .
 # the source-derived Coq files were regenerated from the changed tree: regenerate them from the restored one
-(cd /verif && for g in src_constants ast_translate ast_translate64 ast_translate_ptr ast_translate_out ast_translate_zone ast_translate_load; do python3 gen/$g.py >/dev/null 2>&1; done)
+(cd /verif && for g in src_constants ast_translate ast_translate64 ast_translate_ptr ast_translate_out ast_translate_zone ast_translate_load ast_translate_chrono; do python3 gen/$g.py >/dev/null 2>&1; done)
 git -C /repo status --short | grep -v _build | head -3
